@@ -565,7 +565,38 @@ var faultOps = []faultOp{
 		st.Doc.Directives = append(st.Doc.Directives, &ref.DirectiveDef{Name: "execonly", Locations: []string{"FIELD", "QUERY"}})
 		addTop(st, "directive", len(st.Doc.Directives)-1)
 		dir := &ref.Directive{Name: "execonly"}
-		switch rapid.IntRange(0, 10).Draw(t, "where") {
+		switch rapid.IntRange(0, 13).Draw(t, "where") {
+		case 11, 12, 13:
+			// two extensions of one type (or of the schema): one with a well placed directive, one with
+			// the misplaced one; which of them is merged first depends on the order of the sources
+			st.Doc.Directives = append(st.Doc.Directives, &ref.DirectiveDef{Name: "anywhere", Repeatable: true, Locations: []string{"SCHEMA", "SCALAR", "OBJECT", "INTERFACE", "UNION", "ENUM", "INPUT_OBJECT"}})
+			addTop(st, "directive", len(st.Doc.Directives)-1)
+			good := &ref.Directive{Name: "anywhere"}
+			first, second := good, dir
+			if rapid.Bool().Draw(t, "badfirst") {
+				first, second = dir, good
+			}
+			if rapid.IntRange(0, 4).Draw(t, "onschema") == 0 {
+				for _, d := range []*ref.Directive{first, second} {
+					st.Doc.SchemaExts = append(st.Doc.SchemaExts, &ref.SchemaDef{Directives: []*ref.Directive{d}})
+					addTop(st, "schemaext", len(st.Doc.SchemaExts)-1)
+				}
+				return []string{"schema", "@execonly"}, true
+			}
+			kind := []string{"SCALAR", "OBJECT", "INTERFACE", "UNION", "ENUM", "INPUT_OBJECT"}[rapid.IntRange(0, 5).Draw(t, "kind")]
+			var bases []*ref.TypeDef
+			for _, d := range st.Doc.Defs {
+				if d.Kind == kind {
+					bases = append(bases, d)
+				}
+			}
+			if d := pickDef(t, bases); d != nil {
+				for _, x := range []*ref.Directive{first, second} {
+					st.Doc.Exts = append(st.Doc.Exts, &ref.TypeDef{Kind: d.Kind, Name: d.Name, Directives: []*ref.Directive{x}})
+					addTop(st, "ext", len(st.Doc.Exts)-1)
+				}
+				return []string{d.Name, "@execonly"}, true
+			}
 		case 0:
 			st.Doc.SchemaExts = append(st.Doc.SchemaExts, &ref.SchemaDef{Directives: []*ref.Directive{dir}})
 			addTop(st, "schemaext", len(st.Doc.SchemaExts)-1)
@@ -672,6 +703,7 @@ func ApplySchemaFault(t *rapid.T, st *SchemaTree, idx int) (SchemaFault, bool) {
 	for k := 0; k < len(faultOps); k++ {
 		op := faultOps[(idx+k)%len(faultOps)]
 		if inv, ok := op.f(t, st); ok {
+			pruneEmptyExtensions(st)
 			return SchemaFault{Name: op.name, Rule: op.rule, Involved: inv}, true
 		}
 	}
@@ -680,3 +712,33 @@ func ApplySchemaFault(t *rapid.T, st *SchemaTree, idx int) (SchemaFault, bool) {
 
 // NumSchemaFaults is the size of the catalogue.
 func NumSchemaFaults() int { return len(faultOps) }
+
+// pruneEmptyExtensions drops type extensions a fault left without any content (`extend type T`
+// alone is not derivable from the grammar) and renumbers the order list.
+func pruneEmptyExtensions(st *SchemaTree) {
+	remap := make([]int, len(st.Doc.Exts))
+	var keep []*ref.TypeDef
+	for i, e := range st.Doc.Exts {
+		if len(e.Fields)+len(e.EnumValues)+len(e.Types)+len(e.Directives)+len(e.Interfaces) == 0 {
+			remap[i] = -1
+			continue
+		}
+		remap[i] = len(keep)
+		keep = append(keep, e)
+	}
+	if len(keep) == len(st.Doc.Exts) {
+		return
+	}
+	st.Doc.Exts = keep
+	var order []TopItem
+	for _, it := range st.Order {
+		if it.List == "ext" {
+			if remap[it.Idx] < 0 {
+				continue
+			}
+			it.Idx = remap[it.Idx]
+		}
+		order = append(order, it)
+	}
+	st.Order = order
+}
